@@ -210,7 +210,9 @@ MANIFEST = {
             "part of C18_full (verify_gap, c18_full_refuted). Integer property values: every int64 survives (int_round_trip_fixed). Tie every run: model "
             "= real Dump->Load->Verify line by line on generated databases x three codecs x boundary sizes, also for interrupted+resumed dumps; a Lean "
             "monitor judges recomputed sha256 / sizes / record counts, listings and the loaded graph; width facts of the metrics tables re-extracted.",
-    "note": "Tie only (not proved): that JSON lines + none/gzip/zstd is a codec with dec(enc x)=x, the JSON round trip of strings / floats / bools / "
+    "note": "Partial clause: 'verification succeeds exactly when the graphs match' is false for the code (Verify compares a metrics fingerprint): "
+            "refuted in Lean (c18_full_refuted, verify_gap: two self loops vs a 2-cycle) and confirmed on the real code every run; C18_partial is C18_full "
+            "with that clause replaced by verify_iff_metrics_equal. Tie only (not proved): that JSON lines + none/gzip/zstd is a codec with dec(enc x)=x, the JSON round trip of strings / floats / bools / "
             "null / nested values, SHA-256, the real drivers (in-memory fake only). Scale boundary (65536 kind combinations): width facts in quick, a "
             "65537-combination graph in thorough. No open finding: the int64-beyond-2^53 rounding of Load was fixed in /repo 6eb981c (status fixed in "
             "known_findings.json; big ints are part of every run).",
